@@ -208,8 +208,66 @@ def eval_seq(case):
     return mkres(case, nt=True, classes=['seq', 'n:%d' % len(hosts)], fails=fails[:3])
 
 
+def eval_connfail(case):
+    """A follow-up connection fails before its key exchange starts (refused, closed, silent, no banner, unreadable
+    KEXINIT).  Whatever the tool does next, every key whose reply the server did deliver keeps its size, CA details and
+    fingerprint, and nothing is reported for a key that was never presented."""
+    cspec, ca_type, ca_size = ca_spec(case['ca'])
+    pool = {'ssh-ed25519': ({'t': 'ed25519'}, None, None), 'ssh-ed448': ({'t': 'ed448'}, None, None),
+            ED_CERT: ({'t': 'cert', 'kind': ED_CERT, 'ca': cspec}, 256, (ca_type, ca_size)),
+            RSA_CERTS[0]: ({'t': 'cert', 'kind': RSA_CERTS[0], 'bits': case['bits'], 'ca': cspec}, case['bits'], (ca_type, ca_size))}
+    for k in RSA_FAMILY:
+        pool[k] = ({'t': 'rsa', 'bits': case['rsa_bits']}, case['rsa_bits'], None)
+    keys = case['keys']
+    spec = {'kex': ['curve25519-sha256'], 'key': keys, 'hostkeys': {k: pool[k][0] for k in pool}, 'faults': [case['fault']]}
+    fails = []
+    for rend in ('json', 'text'):
+        net = fakenet.FakeNet()
+        peer = fakenet.Server(spec)
+        net.add('h', 22, peer)
+        r = drive.run_cli(['-n'] + (['-j'] if rend == 'json' else ['-v']) + ['--skip-rate-test', 'h'], net)
+        if r.exc or r.hang or r.code not in (0, 2, 3):
+            fails.append([drive.crash_sig(r) if r.exc else 'no-report', r.brief()])
+            continue
+        got, fps = parse_report(r, rend)
+        # what the server really handed out: the key type each connection asked for, if its reply left complete
+        presented = set()
+        for c in peer.conns:
+            if any(w == 'kexdh_reply' for w, _ in c.emitted) and c.ckey and not any(e[0] == c.idx and e[1] == 'fault' and e[2][0] == 'kexdh_reply' for e in peer.log if len(e) > 2 and isinstance(e[2], (list, tuple))):
+                presented.add(c.ckey[0])
+        if any(k in RSA_FAMILY for k in presented):
+            presented |= {k for k in RSA_FAMILY}
+        want_fps = []
+        seen_rsa = False
+        for k in keys:
+            g = got.get(k)
+            if g is None:
+                fails.append(['hostkey-missing-from-report', '%s %s' % (rend, k)])
+                continue
+            bs, size, ca = pool[k]
+            if k in presented:
+                if size is not None and g['size'] is not None and g['size'] != size or (size is not None and g['size'] is None and (rend == 'text' or k in RSA_FAMILY or k.startswith('ssh-rsa-cert'))):
+                    fails.append(['details-of-a-presented-key-lost-after-a-later-connection-failed', '%s %s: size %r, presented key has %r bits (fault %r, keys %r)' % (rend, k, g['size'], size, case['fault'], keys)])
+                if ca is not None and (g['casize'] != ca[1]):
+                    fails.append(['details-of-a-presented-key-lost-after-a-later-connection-failed', '%s %s: CA size %r, certificate is signed by a %d-bit %s key (fault %r, keys %r)' % (rend, k, g['casize'], ca[1], ca[0], case['fault'], keys)])
+                if ca is None:
+                    name = 'ssh-rsa' if k in RSA_FAMILY else k
+                    if name == 'ssh-rsa' and seen_rsa:
+                        continue
+                    seen_rsa = seen_rsa or name == 'ssh-rsa'
+                    sha, md5 = wire.fingerprints(fakenet.blob_from_spec(bs))
+                    want_fps += [(name, 'SHA256', sha[7:]), (name, 'MD5', md5[4:])]
+            elif g['size'] or g['casize'] or g['ca']:
+                fails.append(['details-reported-for-a-key-that-was-never-presented', '%s %s: %r (fault %r)' % (rend, k, {x: g[x] for x in ('size', 'casize', 'ca')}, case['fault'])])
+        if fps != sorted(want_fps):
+            fails.append(['fingerprints-after-a-later-connection-failed', '%s: reported %r, the keys presented were %r -> %r (fault %r)' % (rend, fps, sorted(presented), sorted(want_fps), case['fault'])])
+    return mkres(case, nt=True, classes=['connfail', 'fault:%s' % (case['fault'][2] if isinstance(case['fault'][2], str) else case['fault'][2][0]), 'at-connection:%d' % case['fault'][1]], fails=fails[:4])
+
+
 def eval_case(case):
     kind = case['kind']
+    if kind == 'connfail':
+        return eval_connfail(case)
     if kind == 'seq':
         return eval_seq(case)
     if kind == 'certfp':
@@ -229,12 +287,12 @@ def eval_case(case):
     elif kind == 'cert':
         cspec, ca_type, ca_size = ca_spec(case['ca'])
         if case['inner'] == 'rsa':
-            bs = {'t': 'cert', 'kind': 'ssh-rsa-cert-v01@openssh.com', 'bits': case['bits'], 'ca': cspec}
+            bs = {'t': 'cert', 'kind': 'ssh-rsa-cert-v01@openssh.com', 'bits': case['bits'], 'ca': cspec, 'fields': case.get('fields')}
             for k in RSA_CERTS:
                 hostkeys[k] = bs
             size = case['bits']
         else:
-            bs = {'t': 'cert', 'kind': ED_CERT, 'ca': cspec}
+            bs = {'t': 'cert', 'kind': ED_CERT, 'ca': cspec, 'fields': case.get('fields')}
             hostkeys[ED_CERT] = bs
             size = 256
         blob = fakenet.blob_from_spec(bs)
@@ -278,14 +336,17 @@ def eval_case(case):
     spec = {'kex': [case.get('kex', 'curve25519-sha256')], 'key': keys, 'hostkeys': hostkeys, 'moduli': [2048], 'gex_style': 'roundup'}
     fails = []
     bits = case.get('bits')
-    odd_bytes = bits is not None and bits % 16 == 8
-    for rend in ('json', 'text'):
+    for rend in case.get('renderings', ('json', 'text')):
         net = fakenet.FakeNet()
         net.add('h', 22, fakenet.Server(spec))
-        r = drive.run_cli(['-n'] + (['-j'] if rend == 'json' else ['-v']) + ['--skip-rate-test', 'h'], net)
+        r = drive.run_cli(['-n'] + {'json': ['-j'], 'text': ['-v'], 'debug': ['-d', '-v'], 'json-debug': ['-j', '-d']}[rend] + ['--skip-rate-test', 'h'], net)
         if r.exc or r.hang or r.code not in (0, 2, 3):
             fails.append([drive.crash_sig(r) if r.exc else 'no-report', r.brief()])
             continue
+        if rend == 'json-debug':
+            continue            # debug lines and the document share stdout; only that the audit went through is judged here
+        if rend == 'debug':
+            rend = 'text'
         got, fps = parse_report(r, rend)
         for k in keys:
             t = truth[k]
@@ -296,8 +357,6 @@ def eval_case(case):
             if t['size'] is not None and (rend == 'text' or k in RSA_FAMILY or k.startswith('ssh-rsa-cert') or g['size'] is not None) and not (rend == 'json' and k == ED_CERT and g['size'] is None):
                 if g['size'] != t['size']:
                     sig = 'hostkey-size'
-                    if kind in ('rsa', 'cert') and case.get('inner', 'rsa') == 'rsa' and odd_bytes and g['size'] == t['size'] + 8:
-                        sig = 'rsa-size-odd-byte-count-plus-8'
                     if not (rend == 'json' and g['size'] is None and not (k in RSA_FAMILY or k.startswith('ssh-rsa-cert'))):
                         fails.append([sig, '%s %s: reported %r-bit, presented key has %d bits' % (rend, k, g['size'], t['size'])])
             if t['ca'] is not None:
@@ -307,10 +366,6 @@ def eval_case(case):
                     fails.append(['ca-type', '%s %s: reported CA %r, certificate is signed by %r' % (rend, k, g['ca'], ca_type)])
                 if g['casize'] != ca_size:
                     sig = 'ca-size'
-                    if ca_type == 'ecdsa-sha2-nistp521' and g['casize'] == 528:
-                        sig = 'ca-size-p521-reported-528'
-                    elif ca_type == 'ssh-rsa' and ca_size % 16 == 8 and g['casize'] == ca_size + 8:
-                        sig = 'rsa-size-odd-byte-count-plus-8'
                     fails.append([sig, '%s %s: reported CA size %r, CA key has %d bits' % (rend, k, g['casize'], ca_size)])
             elif g['casize'] or g['ca']:
                 fails.append(['ca-details-on-plain-key', '%s %s: %r' % (rend, k, g)])
@@ -330,23 +385,6 @@ def eval_case(case):
                     want_w2k = True
             if small != sorted(want_small) or (w2k != ['warn'] if want_w2k else w2k != []):
                 sig = 'size-rating'
-                if (odd_bytes and is_rsa_host) or (t['ca'] and t['ca'][0] == 'ssh-rsa' and t['ca'][1] % 16 == 8):
-                    # same root cause as the size finding only if the rating is exactly the one of the size + 8
-                    hs = t['size'] + 8 if (odd_bytes and is_rsa_host) else t['size']
-                    cs = (t['ca'][1] + 8 if t['ca'][1] % 16 == 8 else t['ca'][1]) if (t['ca'] and t['ca'][0] == 'ssh-rsa') else None
-                    alt_small, alt_w = [], False
-                    if is_rsa_host:
-                        if hs < 2048:
-                            alt_small.append(('fail', 'hostkey' if kind == 'cert' else '', hs))
-                        elif hs < 3072:
-                            alt_w = True
-                    if cs is not None:
-                        if cs < 2048:
-                            alt_small.append(('fail', 'CA key', cs))
-                        elif cs < 3072:
-                            alt_w = True
-                    if small == sorted(alt_small) and (w2k == ['warn']) == alt_w and (alt_w or w2k == []):
-                        sig = 'rsa-size-odd-byte-count-plus-8'
                 fails.append([sig, '%s %s: size notes %r / 2048-warning %r; key %r CA %r => expected %r / %r' % (rend, k, small, w2k, t['size'], t['ca'], sorted(want_small), want_w2k)])
             want_ec = t['ca'] is not None and t['ca'][0].startswith('ecdsa-sha2-nistp')
             if (ec == ['fail']) != want_ec:
@@ -379,15 +417,16 @@ def eval_case(case):
             fails.append(['fingerprints', '%s: reported %r, expected %r' % (rend, fps, sorted(want_fps))])
     near = bits is not None and (abs(bits - 2048) <= 128 or abs(bits - 3072) <= 128)
     nt = near or kind == 'cert' or len([k for k in keys if k in RSA_FAMILY]) >= 2
-    cl = [kind, 'kex:' + case.get('kex', 'curve25519-sha256')] + (['near-threshold'] if near else []) + (['ca:' + case['ca']['t']] if kind == 'cert' else [])
+    cl = [kind, 'kex:' + case.get('kex', 'curve25519-sha256')] + (['near-threshold'] if near else []) + (['ca:' + case['ca']['t']] if kind == 'cert' else []) + (['cert-fields:' + case['fields_label']] if case.get('fields') else []) + (['with -d'] if 'debug' in case.get('renderings', ()) else [])
     return mkres(case, nt=nt, classes=cl, fails=fails)
 
 
 def run(ctx):
     cases = []
     sizes = sorted(set(list(range(512, 16385, 64)) + [b for c in (2048, 3072) for b in range(c - 128, c + 129, 8)]))
+    sizes = sorted(set(sizes + list(range(2032, 2066)) + list(range(3056, 3090)) + [513, 1023, 1025, 4095, 4097, 8191, 16383]))      # every single bit around both thresholds
     if not ctx.quick:
-        sizes = sorted(set(sizes + list(range(512, 16385, 8))))        # every multiple of 8 bits
+        sizes = sorted(set(sizes + list(range(512, 16385, 8)) + list(range(1900, 3200))))        # every multiple of 8 bits; every bit between 1900 and 3200
     fam_orders = [list(p) for n in (1, 2, 3) for p in itertools.permutations(RSA_FAMILY, n)]
     q = False           # the whole grid in both tiers: a complete run takes seconds
     for i, b in enumerate(sizes):
@@ -404,7 +443,7 @@ def run(ctx):
         cases.append({'kind': 'ed', 'keys': ['ssh-ed25519'], 'kex': kx})
     cases.append({'kind': 'ed', 'keys': ['ssh-ed448']})
     cas = [{'t': 'ed25519'}] + [{'t': 'ecdsa', 'curve': c} for c in ('nistp256', 'nistp384', 'nistp521')]
-    ca_sizes = [1024, 1536, 2040, 2048, 2112, 3064, 3072, 4096, 8192] if ctx.quick else sorted(set(list(range(512, 8193, 256)) + [2040, 3064] + list(range(1920, 2177, 16)) + list(range(2944, 3201, 16))))
+    ca_sizes = [1024, 1536, 2040, 2047, 2048, 2049, 2112, 3064, 3071, 3072, 3073, 4096, 8192] if ctx.quick else sorted(set(list(range(512, 8193, 256)) + [2040, 3064] + list(range(1920, 2177, 16)) + list(range(2944, 3201, 16)) + list(range(2040, 2057)) + list(range(3064, 3081))))
     host_sizes = [1024, 2048, 3072, 4096] if ctx.quick else [1024, 2040, 2048, 2560, 3064, 3072, 4096, 8192]
     name_sets = [[RSA_CERTS[0]], [RSA_CERTS[2], RSA_CERTS[1]], RSA_CERTS]
     for i, cs in enumerate(ca_sizes):
@@ -459,6 +498,48 @@ def run(ctx):
         ctx.rng.shuffle(pf)
         pf = pf[:300]
     cases += pf
+    # certificates whose other fields are not the plain ones: the CA key sits behind fields of any length
+    FIELD_SETS = {
+        'critical-option': {'critical_options': [['force-command', '/bin/true']]},
+        'two-critical-options': {'critical_options': [['force-command', '/bin/true'], ['source-address', '10.0.0.0/8']]},
+        'extensions': {'extensions': [['permit-pty', ''], ['permit-user-rc', '']]},
+        'options-and-extensions': {'critical_options': [['verify-required', '']], 'extensions': [['permit-pty', '']]},
+        'no-principals': {'principals': []},
+        'many-principals': {'principals': ['h%d.example.com' % i for i in range(40)]},
+        'empty-key-id': {'key_id': ''},
+        'long-key-id': {'key_id': 'k' * 700},
+        'binary-key-id': {'key_id': '\x00\xff\x00\x00\x00\x07ssh-rsa'},
+        'serial-max': {'serial': 2 ** 64 - 1, 'valid_after': 2 ** 63, 'valid_before': 1},
+        'reserved-non-empty': {'reserved': 'xx'},
+        'nonce-16': {'nonce': 'n' * 16},
+        'nonce-64': {'nonce': 'n' * 64},
+        'exponent-3': {'e': 3},
+        'exponent-large': {'e': 2 ** 32 + 1},
+        'long-signature': {'signature': '\x00\x00\x00\x0crsa-sha2-512\x00\x00\x02\x00' + 'S' * 512},
+    }
+    for label, fields in sorted(FIELD_SETS.items()):
+        for ca in ({'t': 'rsa', 'bits': 1024}, {'t': 'rsa', 'bits': 2048}, {'t': 'rsa', 'bits': 4096}, {'t': 'ed25519'}, {'t': 'ecdsa', 'curve': 'nistp384'}):
+            cases.append({'kind': 'cert', 'inner': 'rsa', 'bits': 3072, 'ca': ca, 'keys': [RSA_CERTS[0]], 'fields': fields, 'fields_label': label})
+            cases.append({'kind': 'cert', 'inner': 'ed25519', 'ca': ca, 'keys': [ED_CERT], 'fields': fields, 'fields_label': label})
+    # the same measurements with debugging output switched on (sizes at the ends of the grid and at the thresholds)
+    for b in (1024, 2047, 2048, 3071, 3072, 4096, 8192, 14272, 14336, 15360, 16384):
+        cases.append({'kind': 'rsa', 'bits': b, 'keys': ['rsa-sha2-512', 'ssh-rsa'], 'renderings': ['debug', 'json-debug']})
+        cases.append({'kind': 'cert', 'inner': 'rsa', 'bits': b, 'ca': {'t': 'rsa', 'bits': b}, 'keys': [RSA_CERTS[0]], 'renderings': ['debug', 'json-debug']})
+    # a follow-up connection that fails before its key exchange, after other keys have been measured
+    cf = []
+    cf_pool = ['ssh-ed25519', 'ssh-ed448', ED_CERT, RSA_CERTS[0], 'rsa-sha2-512', 'ssh-rsa']
+    cf_faults = [['connect', 'refuse'], ['connect', 'close'], ['connect', 'stall'], ['connect', 'timeout'], ['banner', ['raw', 'HTTP/1.0 503 busy\r\n\r\n', 'close']], ['banner', 'close'],
+                 ['kexinit', 'close'], ['kexinit', ['reframe_trunc', 30]], ['kexinit', ['type', 21]], ['kexinit', 'stall']]
+    for n in (2, 3):
+        for combo in _it.permutations(cf_pool, n):
+            i = len(cf)
+            what, f = cf_faults[i % len(cf_faults)]
+            cf.append({'kind': 'connfail', 'keys': list(combo), 'fault': [what, 2 + (i // len(cf_faults)) % (n - 1 + 1), f], 'bits': [2048, 1024, 4096][i % 3], 'rsa_bits': [1024, 3072, 2048][(i // 3) % 3],
+                       'ca': [{'t': 'rsa', 'bits': 1024}, {'t': 'ed25519'}, {'t': 'rsa', 'bits': 4096}, {'t': 'ecdsa', 'curve': 'nistp384'}, {'t': 'rsa', 'bits': 2048}][i % 5]})
+    if ctx.quick:
+        ctx.rng.shuffle(cf)
+        cf = cf[:300]
+    cases += cf
     for ck in ALL_CERT_KINDS:
         for ct in (2, 1, 0, 3):
             for ca in ({'t': 'ed25519'}, {'t': 'rsa', 'bits': 3072}, {'t': 'ecdsa', 'curve': 'nistp256'}):
@@ -467,5 +548,5 @@ def run(ctx):
     ctx.map(cases)
     ctx.exhaustive = not q
     ctx.note(rsa_size_grid=len(sizes), explanation='exhaustive flag (thorough): the whole size grid 512..16384 step 64 plus every multiple of 8 within 128 bits of 2048 and 3072')
-    return ctx.finish('exploration', 'RSA host keys over the size grid (512..16384 step 64, every multiple of 8 within +-128 of both thresholds) under every subset/order of the RSA-family names; Ed25519/Ed448; RSA and Ed25519 certificates signed by RSA CAs (size sweep), Ed25519 CA and ECDSA P-256/384/521 CAs; every probe-capable first key exchange; JSON and verbose text; non-trivial = size within 128 bits of a threshold, or a certificate, or >= 2 RSA names',
-                      assumptions=['keys are 2^(n-1)+1 moduli: only lengths matter to the tool', 'sizes are compared exactly on the grid; multiples of 16 bits are exact in the tool, sizes = 8 (mod 16) are the recorded finding'])
+    return ctx.finish('exploration', 'RSA host keys over the size grid (512..16384 step 64, every multiple of 8 within +-128 of both thresholds, every single bit within 16 bits of them) under every subset/order of the RSA-family names; Ed25519/Ed448; RSA and Ed25519 certificates signed by RSA CAs (size sweep), Ed25519 CA and ECDSA P-256/384/521 CAs; every probe-capable first key exchange; JSON and verbose text; non-trivial = size within 128 bits of a threshold, or a certificate, or >= 2 RSA names',
+                      assumptions=['keys are 2^(n-1)+1 moduli: only lengths matter to the tool', 'sizes are compared exactly, bit for bit'])
